@@ -84,7 +84,7 @@ def generate(rng, tier):
                 for dev in (0, 1, 2):
                     tgs = [[kind, 0, "w1", ["ok", 0], cbm, dev], [kind, 1, "w2", ["ok", 100], 0, 0], ["O", 0, "wbad", ["comm"], 0, 2]]
                     yield {"rate": rate, "tgs": tgs, "gaps": [0, 0, 10], "end": "stop-join"}
-    n = 250 if tier == "quick" else 4000
+    n = 800 if tier == "quick" else 12000
     for _ in range(n):
         rate = rng.choice(RATES)
         period = 1_000_000 // rate if rate else 50_000
